@@ -814,3 +814,6 @@ def oversize(chk, repo):
            repo.module("ebpfcat.ebpfcat").tree,
            f"{len(bad)} direct manipulations" if bad else "exhaustive scan "
            "of the package")
+
+# added rules (appended to the explanation the evidence file carries)
+EXPLANATION += (" " + "Added during the build (DESIGN.md 4.31, second table): append_fmmu on a grid of accumulators, map_fmmu's register image decoded by the ESC layout, the flag merge of SyncGroupBase.__init__ for every device order, allocate-before-append_fmmu on the CFG - all by abstract execution or CFG, replacing statement patterns.")
